@@ -167,6 +167,12 @@ class VK:
                     os.makedirs(os.path.dirname(path), exist_ok=True)
                     with open(path, "wb") as f:
                         f.write(content)
+                for rel in b.get("dirs") or []:
+                    os.makedirs(os.path.join(out, rel), exist_ok=True)
+                for rel, target in (b.get("links") or {}).items():
+                    path = os.path.join(out, rel)
+                    os.makedirs(os.path.dirname(path), exist_ok=True)
+                    os.symlink(target, path)
         except OSError as ex:  # pragma: no cover
             self._fail(HarnessError("child exit effects failed: %r" % (ex,)))
 
